@@ -182,7 +182,23 @@ var narrowRows = map[string]string{
 	"input-untouched":       "the candidate list handed in is left as it was (it may be shared with other points of the same type)",
 }
 
-func narrowTable(c *core.Ctx, fn *ssa.Function, maxLen int) (rs rows, runs int, undecided string) {
+func narrowTable(c *core.Ctx, fn *ssa.Function, maxLen int) (rows, int, string) {
+	type res struct {
+		rs   rows
+		runs int
+		und  string
+	}
+	key := fmt.Sprintf("narrow-table:%s:%d", fn.String(), maxLen)
+	if v, ok := c.Memo.Load(key); ok {
+		x := v.(res)
+		return x.rs, x.runs, x.und
+	}
+	rs, runs, und := narrowTableUncached(c, fn, maxLen)
+	c.Memo.Store(key, res{rs, runs, und})
+	return rs, runs, und
+}
+
+func narrowTableUncached(c *core.Ctx, fn *ssa.Function, maxLen int) (rs rows, runs int, undecided string) {
 	rs = rows{}
 	prop := c.Named("component_definition", "Property")
 	meta := c.Named("component_definition", "Meta")
@@ -268,7 +284,8 @@ func narrowTable(c *core.Ctx, fn *ssa.Function, maxLen int) (rs rows, runs int, 
 							mb.Fields["Type"] = mt
 							m.Fields["Raw"], m.Fields["Base"] = raw, mb
 							if k.named {
-								m.Fields["alias"] = absint.Str("custom")
+								// (a custom name may well be the very text a qualifier is requested by: the two are unrelated)
+								m.Fields["alias"] = absint.Str("q")
 							} else {
 								m.Fields["alias"] = absint.Str("")
 							}
@@ -318,16 +335,33 @@ func narrowTable(c *core.Ctx, fn *ssa.Function, maxLen int) (rs rows, runs int, 
 								if !ok || mt.Attr["primary"] == nil {
 									panic(&absint.Undecided{Msg: "IsTypeImplement on something that is not a candidate's type"})
 								}
+								// which interface is asked about: the witness `new(I)`
+								if cell, isCell := a[1].(*absint.Cell); isCell && cell.Elem != nil && !types.Identical(cell.Elem, wp) {
+									// any other capability of the candidate's type: both answers are possible
+									key := "cap:" + cell.Elem.String()
+									if mt.Attr[key] == nil {
+										mt.Attr[key] = absint.Bool(ip.Choose(2, mt.ID+" implements "+cell.Elem.String()) == 1)
+									}
+									return mt.Attr[key]
+								}
 								return mt.Attr["primary"]
 							}
 						}
-						t.typeTest = func(v absint.Value, T types.Type) (bool, bool) {
+						t.typeTestC = func(ip *absint.Interp, v absint.Value, T types.Type) (bool, bool) {
 							raw, ok := v.(*absint.Tok)
 							if !ok || raw.Attr["qual"] == nil {
 								return false, false
 							}
 							if types.Identical(T, wq) {
 								return raw.Attr["qual"] != absint.Value(absint.Str("-")), true
+							}
+							if types.IsInterface(T) {
+								// any other capability of the candidate: both answers are possible
+								key := "cap:" + T.String()
+								if raw.Attr[key] == nil {
+									raw.Attr[key] = absint.Bool(ip.Choose(2, raw.ID+" implements "+T.String()) == 1)
+								}
+								return raw.Attr[key] == absint.Value(absint.Bool(true)), true
 							}
 							return false, false
 						}
